@@ -499,7 +499,8 @@ TRUSTED_BASE = [
     "Coq 8.16.1 kernel (coqc .vo build; vm_compute in Examples/refutations; no native_compute)",
     "axioms: none declared by the development; every property theorem must print 'Closed under the global context'",
     "extraction: Coq.extraction.ExtrOcamlBasic only (bool, option, unit, list, prod, sumbool, sumor, andb, orb); no Extract Constant/Inductive of our own; OCaml 4.13.1",
-    "hand-written OCaml driver (case parser, printers) and Rust harness (case parser, printers, watchdog)",
+    "hand-written OCaml driver (case parser incl. arbitrary-precision literals and u64/i64 range checks, printers, schedule enumerator over the model's cstep, wrap_cb closure running extra steps from inside callbacks) and Rust harness (case parser, printers, watchdog, cooperative scheduler, iterator-consumer variants)",
+    "cases named deep* (thousands of nodes) are decided by the independent Python oracle only; the model skips them",
     "the model is hand-written from src/; its tie to /repo's working tree is this run's differential correspondence (bounded by the generators reported here)",
     "Rc/Arc/RefCell/RwLock, ahash, serde codecs, rustc are outside the model",
 ]
